@@ -110,8 +110,8 @@ PROPS["C14"] = {
 
 MANIFEST_TEXT = {
     "C01": {
-        "technique": "deterministic simulation: seeded multi-client request histories against the real handler and LocalFileSystem on a simulated disk seam, refinement-checked step by step against an executable RFC 4918 resource-tree model",
-        "level_text": "Seeded exploration of request histories (3-40 requests, trees up to ~24 nodes, special-character names, spelling variants of paths) with a step-by-step refinement oracle: status, entity headers, body, multi-status content and the on-disk tree must equal what the reference model allows. Sampling, not enumeration: the right level for a claim over unbounded histories of a persistent store.",
+        "technique": "deterministic simulation: seeded multi-client request histories (with broken uploads, cancelled contexts and clients that hang up mid-answer in a share of the runs) against the real handler and LocalFileSystem on a simulated disk seam, refinement-checked step by step against an executable RFC 4918 resource-tree model",
+        "level_text": "Seeded exploration of request histories (3-40 requests, trees up to ~24 nodes plus, in a share of the runs, chains of 50-400 nested collections, special-character names, spelling variants of paths) with a step-by-step refinement oracle: status, entity headers, body, multi-status content and the on-disk tree must equal what the reference model allows. Sampling, not enumeration: the right level for a claim over unbounded histories of a persistent store.",
         "design_ref": "DESIGN.md section 3 / C01, appendix A",
         "level_note": "Trusted: the reference model (written from RFC 4918/3986 and the property text), net/http's request parser, tmpfs. Names are sampled from alphabets; requests in flight one at a time.",
     },
@@ -122,13 +122,13 @@ MANIFEST_TEXT = {
         "level_note": "Trusted: tmpfs, the disk shim's error shaping. Disk-fault atomicity is demanded of PUT only (old-or-new, no stray names unless a remove call itself failed).",
     },
     "C03": {
-        "technique": "deterministic simulation: hostile-path histories with a confinement monitor at the disk seam (every path argument of every os/filepath call), canary files, and multi-status href re-addressing",
+        "technique": "deterministic simulation with fault injection: hostile-path histories, plus histories with injected disk errors, broken uploads, overlapped requests and a handler re-pointed at another directory, under a confinement monitor at the disk seam (every path argument of every os/filepath call), canary files, and multi-status href re-addressing",
         "level_text": "Seeded exploration of a traversal grammar crossed with all methods and both channels (request-target, Destination). The monitor sits where I/O effects are complete: a would-be read outside the root is caught before it reaches the kernel.",
         "design_ref": "DESIGN.md section 3 / C03",
         "level_note": "Trusted: the import rewrite reaches every os/filepath call of the library packages (a use of an API the shim lacks fails the build, exit 2).",
     },
     "C04": {
-        "technique": "deterministic simulation: multi-client stale-tag histories against the real handler and LocalFileSystem with modification times from the fake clock, judged by the model's precondition truth table",
+        "technique": "deterministic simulation: multi-client stale-tag histories (a share of the requests with their context cancelled before the handler or just before its k-th file-system call) against the real handler and LocalFileSystem with modification times from the fake clock, judged by the model's precondition truth table",
         "level_text": "Seeded exploration of histories in which a tag learned by one client goes stale because another wrote in between; the truth table (2 headers x 7 value classes x 3 resource states x 2 methods) is covered many times per batch and the tree is compared after every request.",
         "design_ref": "DESIGN.md section 3 / C04",
         "level_note": "Trusted: the model's reading of the statement's truth table; entity tags are opaque strings learned from announcements.",
@@ -158,7 +158,7 @@ MANIFEST_TEXT = {
         "level_note": "Trusted: the RoundTripper stub, the independent multi-status reader used to decide which members failed. Partial: no arbitrary document mutation.",
     },
     "C17": {
-        "technique": "deterministic simulation: every response of seeded histories, including histories with OS error kinds injected at the disk seam, scanned for the host path",
+        "technique": "deterministic simulation with fault injection: every response of seeded histories - with OS error kinds injected at the disk seam, overlapped requests, hostile paths, and trees pushed across PATH_MAX by a MOVE - scanned for the host path",
         "level_text": "Seeded exploration; the monitor sees every response byte of every run, and the disk seam supplies error kinds a healthy tmpfs never produces (EXDEV, EACCES, EIO, ENOSPC, ENAMETOOLONG...) shaped exactly as package os shapes them, with the real absolute path inside.",
         "design_ref": "DESIGN.md section 3 / C17",
         "level_note": "Trusted: error shaping of the disk shim mirrors package os (PathError/LinkError with op and path). The root directory has a distinctive name so a hit cannot be accidental.",
